@@ -266,6 +266,21 @@ def lsnLine (toks : List String) : String :=
   let per := (List.range good).map fun c => toString (s.out c).length
   "clients=" ++ String.intercalate "," per ++ " astray=0 late=" ++ toString (s.out (good + nf)).length ++ " | - | -"
 
+/-- real-TCP client scenario (supporting evidence for C11/C12): every request whose 32-octet answer was completely
+sent before the cut holds its own answer, every other future fails; without a cut every future holds its own answer -/
+def ctcpLine (toks : List String) : String :=
+  let n := ((kvOf toks "n").bind String.toNat?).getD 1
+  let perm : List Nat := ((kvOf toks "perm").getD "").splitOn "." |>.filterMap String.toNat?
+  let cut : Option Nat := (kvOf toks "cut").bind String.toNat?
+  let base : Nat := ((((kvOf toks "id").bind String.toNat?).getD 0) * 1000 + 17) % 4294967296
+  let delivered : List Nat := match cut with
+    | none => perm
+    | some c => perm.take (c / 32)
+  let res := (List.range n).map fun i =>
+    let h := (base + i) % 4294967296
+    if delivered.contains i then "got:" ++ toString h ++ ":" ++ toString (h ^^^ 0xabcd) else "err"
+  "res=" ++ String.intercalate "," res ++ " | - | -"
+
 def statusStr : Status → String
   | .ok => "ok" | .err => "err" | .bad => "bad"
 
@@ -422,6 +437,7 @@ def step (s : DState) (line : String) : DState × String :=
     | none => plain s "bad-op"
   | "tls" :: rest => (s, tlsLine rest)
   | "lsn" :: rest => (s, lsnLine rest)
+  | "ctcp" :: rest => (s, ctcpLine rest)
   | ["ctrace", evs, answers] => (s, ctraceLine evs answers)
   | ["msave"] => plain { s with saved := s.saved.push s.ms.msg, ms := { s.ms with msg := Msg.new 272 4 0 0 0 } } "ok"
   | ["mclear"] => plain { s with saved := #[] } "ok"
